@@ -48,8 +48,8 @@ type invField2 struct {
 }
 
 type invType struct {
-	Name   string     `json:"name"`
-	Kind   string     `json:"kind"`
+	Name   string      `json:"name"`
+	Kind   string      `json:"kind"`
 	Fields []invField2 `json:"fields,omitempty"`
 }
 
